@@ -58,7 +58,7 @@ def oracle(tier, rng, deep=False):
             failures.append(dict(site=site + ":raises", input=inp, observed=repr(e)[:200]))
             return
         cmp(site, a_, b_, inp)
-    nrep = 8 if tier == "quick" and not deep else 60
+    nrep = 8 if tier == "quick" and not deep else (24 if tier == "quick" else 60)   # quick + broken obligation: 3x the quick search
     for _ in range(nrep):
         p = rng.randint(1, 5)
         a, g = rng.choice([0.25, 0.5, 1.0]), rng.choice([3.0, 4.0])
